@@ -14,7 +14,7 @@ K = lambda name, file, fn: dict(name=name, target=("oxidize-pdf-core/src/" + fil
 PROPS = {
     "C01": dict(
         verus=["tokenizer", "runlength", "gss", "xrefstream", "glyf", "guards", "predictor", "pngrows", "flatten", "bounded", "asciihex", "ascii85", "rotate", "pngunfilter", "cmaprange", "readlimited"],
-        standins=["a85hex"],
+        standins=["a85hex", "hostile-inputs"],
         kani=[K("c01_hex_digit_value", "parser/filters.rs", "hex_digit_value"),
               K("c01_calculate_offset_9_bytes_no_panic", "text/cmap.rs", "calculate_offset")],
         level_text="panic-freedom (index, slice range, overflow, division), termination and output bounds proved per listed function for all inputs; the whole-program 'never crashes' claim is NOT made",
